@@ -12,7 +12,7 @@
 //   C02.integrate         integrate() == sum_i w_i v_i for the loaded values (every family)
 // Tolerances: |a-b| <= tau * S, S = max(sum_i |w_i phi(x_i)|, |expected|, sum_i |w_i| * prod_j R_j^p_j) with R_j the magnitude of x_j on the
 // domain (so that an odd monomial on a symmetric rule, where sum and scale are both rounding noise, is compared with a meaningful scale).
-#include "moments.hpp"
+#include "refmodel/moments.hpp"
 
 namespace vf {
 using namespace c0203;
@@ -31,6 +31,7 @@ void check_C02(Src &s, Ctx &ctx) {
     GridState st; st.cap = so.cap; st.ctx = &ctx;
     st.spec = decode_spec(s, so);
     int exotic = -1;
+    if (fam == F_GLOBAL && !st.spec.custom && s.chance(1, 12)) { st.spec.custom = true; st.spec.rule = rule_customtabulated; st.spec.alpha = st.spec.beta = 0; }   // more weight on custom tables
     if (st.spec.custom && s.chance(1, 2)) { exotic = s.pick(NUM_EXOTIC); st.spec.ta.clear(); st.spec.tb.clear(); }   // exotic weights are documented on [-1,1]
     if (st.spec.ta.empty() && s.chance(1, 6)) {   // a little more weight on transforms (floor: transform present >= 30 %)
         if (exotic < 0) for (int j = 0; j < st.spec.dims; j++) { auto ab = (fam == F_GLOBAL && rule_unbounded(st.spec.rule)) ? s.of(UNBOUNDED_AB) : s.of(BOUNDED_AB); st.spec.ta.push_back(ab.first); st.spec.tb.push_back(ab.second); }
@@ -64,7 +65,8 @@ void check_C02(Src &s, Ctx &ctx) {
     const Weight1D wt = weight_for(sp, exotic);
     const bool zero_b = (fam == F_GLOBAL && !sp.custom && sp.rule == rule_clenshawcurtis0);
     const bool gs = (fam == F_GLOBAL || fam == F_SEQ);
-    const double tau = 1e-9;
+    // exotic tables are themselves numerical constructions (orthogonal polynomials of a 120-point reference measure, eigenvalue solve stopped at 1e-12): 10x looser than the built-in rules
+    const double tau = 1e-9, tau_mono = (exotic >= 0) ? 5e-8 : 5e-9;   // calibrated: largest ratio over 50 000 cases on the pinned tree 2e-4
     int max_total = 0; long tested = 0;
     double r_prev = 0;   // classes whose error / tolerance ratio exceeds 1e-4 are labelled (calibration evidence)
     auto mark = [&](const char *block) { if (ctx.max_ratio > r_prev && ctx.max_ratio > 1e-4) ctx.label(std::string(ctx.max_ratio > 1e-3 ? "ratio>1e-3:" : "ratio>1e-4:") + block + ":" + (fam == F_GLOBAL ? (sp.custom ? (exotic >= 0 ? std::string("exotic:") + EXOTICS[exotic].name : std::string("custom-gl")) : rule_name(sp.rule)) : std::string(fam_name(fam)))); r_prev = std::max(r_prev, ctx.max_ratio); };
@@ -105,7 +107,7 @@ void check_C02(Src &s, Ctx &ctx) {
             for (int i = 0; i < N; i++) { LD f = 1; for (int j = 0; j < d; j++) f *= tab[(size_t)j][(size_t)i * (size_t)(sp_q.maxp[(size_t)j] + 1) + (size_t)p[(size_t)j]]; f *= (LD)w[(size_t)i]; sum += f; sc += fabsl(f); }
             for (int j = 0; j < d; j++) { expect *= mu[(size_t)j][(size_t)p[(size_t)j]]; flo *= powl(R[(size_t)j], p[(size_t)j]); }
             LD S = std::max(std::max(sc, fabsl(expect)), flo);
-            ctx.close("C02.monomial", (double)sum, (double)expect, (double)S, tau, [&]() { std::ostringstream o; o << (zero_b ? "vanishing polynomial of declared powers (" : "monomial with powers (") << join(p) << ") of getGlobalPolynomialSpace(false): sum_i w_i phi(x_i) vs exact integral ["
+            ctx.close("C02.monomial", (double)sum, (double)expect, (double)S, tau_mono, [&]() { std::ostringstream o; o << (zero_b ? "vanishing polynomial of declared powers (" : "monomial with powers (") << join(p) << ") of getGlobalPolynomialSpace(false): sum_i w_i phi(x_i) vs exact integral ["
                 << sp.text() << ", " << N << " points]"; return o.str(); });
             tested++; max_total = std::max(max_total, sp_q.total(p));
         }
@@ -116,7 +118,7 @@ void check_C02(Src &s, Ctx &ctx) {
         // ---- (ii) weights sum to the measure
         if (!zero_b) {
             LD vol = 1; for (int j = 0; j < d; j++) vol *= mu[(size_t)j][0];
-            ctx.close("C02.weights-sum", (double)sum_w, (double)vol, (double)std::max(sumabs_w, fabsl(vol)), tau, [&]() { return "sum of the quadrature weights vs measure of the (transformed) domain [" + sp.text() + "]"; });
+            ctx.close("C02.weights-sum", (double)sum_w, (double)vol, (double)std::max(sumabs_w, fabsl(vol)), tau_mono, [&]() { return "sum of the quadrature weights vs measure of the (transformed) domain [" + sp.text() + "]"; });
             ctx.count("weights-sum"); mark("weights-sum");
         }
     }
